@@ -31,6 +31,8 @@ type FontInfo struct {
 	ArabicGSUB                         bool          // GSUB has one of isol/fina/medi/init (otherwise Arabic fallback shaping is used)
 	ArabicFallbackLig                  bool          // cmap maps a first component of the synthesised fallback ligature lookups
 	NoOutlines                         bool          // no glyf / CFF / CFF2 table
+	AttachTags                         map[string]bool // GPOS feature tags whose lookups contain cursive / mark attachment subtables
+	PairPos2Shadow                     [][]tables.PairPos // lookups where a PairPosFormat2 subtable is followed by another pair subtable
 	PairPos2Class0                     bool          // GPOS has a PairPosFormat2 subtable with ValueFormat2 != 0 or non-zero values in the class2 = 0 column
 }
 
@@ -134,6 +136,39 @@ func infoFor(p *Pair) *FontInfo {
 		}
 	}
 	fi.PairPos2Class0 = pairPos2Class0(p)
+	fi.AttachTags = map[string]bool{}
+	for _, f := range p.Go.GPOS.Features {
+		for _, li := range f.LookupListIndices {
+			if int(li) >= len(p.Go.GPOS.Lookups) {
+				continue
+			}
+			for _, st := range p.Go.GPOS.Lookups[li].Subtables {
+				switch st.(type) {
+				case tables.CursivePos, tables.MarkBasePos, tables.MarkLigPos, tables.MarkMarkPos,
+					tables.ContextualPos, tables.ChainedContextualPos:
+					fi.AttachTags[f.Tag.String()] = true
+				}
+			}
+		}
+	}
+	func() {
+		defer func() { recover() }()
+		for _, lk := range p.Go.GPOS.Lookups {
+			var pps []tables.PairPos
+			has2 := false
+			for _, st := range lk.Subtables {
+				if pp, ok := st.(tables.PairPos); ok {
+					if _, is2 := pp.Data.(tables.PairPosData2); is2 && len(pps) >= 0 {
+						has2 = true
+					}
+					pps = append(pps, pp)
+				}
+			}
+			if has2 && len(pps) >= 2 {
+				fi.PairPos2Shadow = append(fi.PairPos2Shadow, pps)
+			}
+		}
+	}()
 	fi.GoGPOSDropped = fi.GPOS && len(p.Go.GPOS.Lookups) == 0 && rawLookupCount(p, "GPOS") != 0
 	fi.GoGSUBDropped = fi.GSUB && len(p.Go.GSUB.Lookups) == 0 && rawLookupCount(p, "GSUB") != 0
 	fi.MacOnly, fi.CmapIDs = cmapRecords(p)
